@@ -1099,7 +1099,11 @@ let run_ndev_line (line : string) : string =
   let r = ref 5 and fault = ref None and bias = ref "-" and session = ref None in
   List.iter (fun kv -> match String.index_opt kv '=' with
     | Some i -> let k = String.sub kv 0 i and v = String.sub kv (i + 1) (String.length kv - i - 1) in
-      (match k with "r" -> r := int_of_string v | "fault" -> fault := (if v = "-" then None else Some (n_of_dec v)) | "bias" -> bias := v | "session" -> session := Some v | _ -> ())
+      (match k with "r" -> r := int_of_string v | "fault" -> fault := (if v = "-" then None else
+                                         (match String.index_opt v 'x' with
+                                          | Some j -> Some (n_of_dec (String.sub v 0 j), n_of_dec (String.sub v (j + 1) (String.length v - j - 1)))
+                                          | None -> Some (n_of_dec v, n_of_int 1)))
+                  | "bias" -> bias := v | "session" -> session := Some v | _ -> ())
     | None -> ()) (List.tl head);
   let m0 = mac_new (n_of_int !r) (n_of_int 22) (z_of_int 0) in
   let m0 = if !bias <> "-" && (!r = 4 || !r = 8) then begin
